@@ -4,7 +4,7 @@
 REPO=${1:-/repo}
 OUT=$(mktemp /var/tmp/fiddle-junit-XXXXXX.xml)
 cd "$REPO" && env -u FIDDLE_VERIF /venv/bin/python -m pytest -ra -q -p no:cacheprovider --timeout=900 \
-  --continue-on-collection-errors --junitxml="$OUT" >/var/tmp/fiddle-baseline.log 2>&1
+  --continue-on-collection-errors --junitxml="$OUT" >/var/tmp/fiddle-baseline.$$.log 2>&1; rm -f /var/tmp/fiddle-baseline.$$.log
 /venv/bin/python - "$OUT" <<'PY'
 import json, sys, xml.etree.ElementTree as ET
 base = json.load(open('/root/.vp/BASELINE.json'))
